@@ -8,7 +8,8 @@
 //   subs <ev>* ; <mask>*        => n=<n> d<row>*n then per mask:  S<mask>:<closure>:<largest maximal subset>:<flags>:<cwa>:<topo>:<add>:<compat>:<alg>
 //        flags = is_maximal is_conflict_free is_valid_configuration (3 bits)
 //        cwa   = mask of events e with e->conflicts_with_any(S)
-//        topo  = get_topological_ordering() ids joined by `.` (`-` if empty)
+//        topo  = get_topological_ordering() ids joined by `.` (`-` if empty) / iteration order of the set S
+//        after the d rows (subs, maxs): o<order> per event = iteration order of its immediate causes; maxs: q<iteration order of S>
 //        add   = per event e, Configuration(S).add_event(e): u(nchanged) c(onflict) m(issing history) a(dded); `x` if S is not a valid configuration
 //        compat= mask of events e with Configuration(S).is_compatible_with(e) (`x` if invalid)
 //        alg   = with T = the next mask of the list (cyclically): union.subtract.intersection.is_subset_of.intersects
@@ -122,6 +123,20 @@ static void print_dep(std::ostream& out, const Unf& u)
   }
 }
 
+// iteration order of an EventSet (= the hash order the algorithms see): ids joined by `.`, `-` if empty
+static std::string iter_order(const Unf& u, const EventSet& s)
+{
+  if (s.empty())
+    return "-";
+  std::string r;
+  bool first = true;
+  for (const auto* e : s) {
+    r += (first ? "" : ".") + std::to_string(u.idx.at(e));
+    first = false;
+  }
+  return r;
+}
+
 template <class It, class Base> static std::string positions(const std::vector<It>& v, Base b)
 {
   if (v.empty())
@@ -157,6 +172,11 @@ int main()
         build(u, toks);
         size_t n = u.n();
         print_dep(out, u);
+        if (kind != "pairs")
+          // o<i>: the order in which the immediate causes of event i are iterated (get_topological_ordering pushes them
+          // in that order, minus the ones it filters out)
+          for (size_t i = 0; i < n; i++)
+            out << " o" << iter_order(u, u.ev[i]->get_immediate_causes());
         if (kind == "pairs") {
           for (size_t i = 0; i < n; i++)
             out << " H" << u.mask(u.ev[i]->get_history());
@@ -192,7 +212,7 @@ int main()
               out << "-";
             for (size_t i = 0; i < topo.size(); i++)
               out << (i ? "." : "") << u.idx.at(topo[i]);
-            out << ":";
+            out << "/" << iter_order(u, s) << ":";   // + the iteration order of the set itself (`*unknown_events.begin()`)
             if (s.is_valid_configuration()) {
               unsigned long compat = 0;
               for (size_t i = 0; i < n; i++) {
@@ -221,6 +241,7 @@ int main()
           unsigned long m = std::stoul(rest.at(0));
           std::optional<size_t> mx = rest.at(1) == "-" ? std::nullopt : std::optional<size_t>(std::stoul(rest[1]));
           EventSet s = u.set(m);
+          out << " q" << iter_order(u, s);
           for (auto it = maximal_subsets_iterator(s, std::nullopt, mx); it != maximal_subsets_iterator(); ++it)
             out << " " << u.mask(*it);
         }
